@@ -98,14 +98,25 @@ def run_cli_prop(prop, spec, tier, seed):
         n = spec["counts"][0 if tier == "quick" else 1]
         results = climon.run_cases(getattr(climon, spec["fn"]), seed, spec["mode"], n, work)
         # a timeout only counts when it reproduces
-        for r in results:
-            if r["status"] == "fail" and r.get("kind") == "timeout":
-                rd = os.path.join(work, "retry%d" % r["i"])
-                os.makedirs(rd, exist_ok=True)
-                again = getattr(climon, spec["fn"])(climon.rng_for(seed, spec["mode"], r["i"]), r["i"], rd)
-                if again["status"] != "fail" or again.get("kind") != "timeout":
-                    agg.inconclusive.append({"index": r["i"], "what": "timeout", "note": "did not reproduce"})
-                    r.update(again)
+        # (at most 6 are re-run, side by side; further ones are recorded as inconclusive, not as violations)
+        timed_out = [r for r in results if r["status"] == "fail" and r.get("kind") == "timeout"]
+
+        def again(r):
+            rd = os.path.join(work, "retry%d" % r["i"])
+            os.makedirs(rd, exist_ok=True)
+            return getattr(climon, spec["fn"])(climon.rng_for(seed, spec["mode"], r["i"]), r["i"], rd)
+
+        from concurrent.futures import ThreadPoolExecutor
+        with ThreadPoolExecutor(max_workers=6) as ex:
+            reruns = list(ex.map(again, timed_out[:6]))
+        for r, a in zip(timed_out[:6], reruns):
+            if a["status"] != "fail" or a.get("kind") != "timeout":
+                agg.inconclusive.append({"index": r["i"], "what": "timeout", "note": "did not reproduce"})
+                r.update(a)
+        for r in timed_out[6:]:
+            agg.inconclusive.append({"index": r["i"], "what": "timeout", "note": "not re-run (more than 6 timeouts in this run)"})
+            r["status"] = "skip"
+            r["skip"] = "timeout that was not re-run"
         agg.add_results(spec["mode"], results, findings)
     finally:
         shutil.rmtree(work, ignore_errors=True)
